@@ -4,11 +4,14 @@
 package c08
 
 import (
+	"bufio"
 	"bytes"
 	"fmt"
+	"io"
 	"math"
 	"strings"
 	"testing"
+	"testing/iotest"
 	"time"
 
 	"github.com/EliCDavis/polyform/formats/ply"
@@ -35,13 +38,56 @@ func TestMain(m *testing.M) {
 	})
 }
 
-type Case struct{ F plyref.File }
+type Case struct {
+	F plyref.File
+	// Reader selects how the bytes are handed to ReadMesh: 0 bytes.Reader, 1 one byte per Read, 2 half of
+	// the request per Read, 3 chunks of 7 bytes, 4 data together with io.EOF, 5 bufio.Reader of size 16
+	// (io.Reader allows all of them; files, pipes, sockets and decompressors behave like this)
+	Reader int `json:",omitempty"`
+}
 
 func genCase(t *rapid.T) Case {
 	ex := 0
-	f := plyref.Gen(t, plyref.Opts{ExcludeAsciiUcharScalar: true, Excluded: &ex})
+	o := plyref.Opts{ExcludeAsciiUcharScalar: true, Excluded: &ex}
+	if rapid.IntRange(0, 11).Draw(t, "manyVerts") == 0 {
+		o.MinVerts, o.MaxVerts = 100, 400 // indices beyond 127 / 255
+	}
+	f := plyref.Gen(t, o)
 	_ = ex
-	return Case{F: f}
+	c := Case{F: f}
+	if rapid.IntRange(0, 2).Draw(t, "shortReads") == 0 {
+		c.Reader = rapid.IntRange(1, 5).Draw(t, "reader")
+	}
+	return c
+}
+
+type chunkReader struct {
+	r io.Reader
+	n int
+}
+
+func (c chunkReader) Read(p []byte) (int, error) {
+	if len(p) > c.n {
+		p = p[:c.n]
+	}
+	return c.r.Read(p)
+}
+
+func readerFor(mode int, b []byte) io.Reader {
+	var r io.Reader = bytes.NewReader(b)
+	switch mode {
+	case 1:
+		return iotest.OneByteReader(r)
+	case 2:
+		return iotest.HalfReader(r)
+	case 3:
+		return chunkReader{r, 7}
+	case 4:
+		return iotest.DataErrReader(r)
+	case 5:
+		return bufio.NewReaderSize(chunkReader{r, 5}, 16)
+	}
+	return r
 }
 
 func runCase(c Case, o *vh.Obs) *vh.Failure {
@@ -83,7 +129,13 @@ func runCase(c Case, o *vh.Obs) *vh.Failure {
 	}
 	var m *modeling.Mesh
 	var err error
-	if kind, val := oracle.Try(func() { m, err = ply.ReadMesh(bytes.NewReader(enc.Bytes)) }); kind != "" {
+	if c.Reader != 0 {
+		o.Class(fmt.Sprintf("short-reads/%d", c.Reader))
+	}
+	if len(f.Vals) > 127 {
+		o.Class("more-than-127-vertices")
+	}
+	if kind, val := oracle.Try(func() { m, err = ply.ReadMesh(readerFor(c.Reader, enc.Bytes)) }); kind != "" {
 		return vh.Failf("read-panic-"+kind, "ReadMesh panicked on a valid file: %v\n%q", val, enc.Bytes)
 	}
 	if err != nil {
